@@ -243,7 +243,8 @@ def check_safe(ctx, w, quick=False):
 
 
 def check_bad_positions(ctx, w):
-    """API-B: the two positions the theorems show to be wrong at HEAD (known findings until repaired)"""
+    """API-B: dotted http path variable and flattened non-terminal segment with a reserved word. Both were
+    wrong before the C12 fix: commits (DESIGN §9-F1/F2); kept as regression inputs: they must compile AND import."""
     for pos in ("dotted http path variable", "flattened non-terminal segment"):
         f = apigen.File("acme/lib/v1/lib.proto", PKG)
         thing = f.msg("Thing"); thing.field("name", "string", 1); thing.field(w, "string", 2) if w != "name" else None
@@ -270,6 +271,10 @@ def check_bad_positions(ctx, w):
         if bad:
             key = "reserved-in-dotted-path-var" if pos.startswith("dotted") else "reserved-in-flattened-non-terminal"
             ctx.fail(key, f"word {w!r} as {pos}: emitted code is not valid Python: {bad[0]}", payload)
+            continue
+        imp = emitted_ok(f)
+        if imp is not None:
+            ctx.fail(f"position:{pos}:{imp[0]}", f"word {w!r} as {pos}: library fails at {imp[0]}: {imp[1]}", payload)
 
 
 def t2(ctx):
